@@ -33,6 +33,7 @@ var registry = map[string]checkFn{
 	"C23": checkC23,
 	"C24": checkC24,
 	"C25": checkC25,
+	"C26": checkC26,
 	"C27": checkC27,
 	"C28": checkC28,
 	"C29": checkC29,
